@@ -28,6 +28,9 @@ def run(ctx):
     RS.check_conservation(ctx, 'R2.1')
     RS.check_yield_reset(ctx, 'R2.2')
     RS.check_final_flush(ctx, 'R2.3')
+    from .c04 import check_ws_rules_only_ws
+    ctx.engines |= {'tables', 'rx'}
+    check_ws_rules_only_ws(ctx, 'R2.3')
     RT.check_str_primitives(ctx, 'R2.4')
     RT.check_effect_confinement(ctx, 'R2.5')
     RT.check_group_tokens(ctx, 'R2.6')
